@@ -810,6 +810,8 @@ func stress(args []string) error {
 			res.Sample(map[string]any{"shared_url": before.str, "mode": mode, "reads": reads, "results": results})
 		}
 	}
+	// the history shape (redact an equal URL, then change the result) under concurrency
+	totalCalls += stressHistories(res, nCallers+nReaders, iters)
 	if err := tr.Close(); err != nil {
 		return err
 	}
